@@ -27,7 +27,7 @@ CFGS = {
     't1111': ('MC_AdminOp_t1111.cfg', [1, 1, 1, 1]),
 }
 # behaviour of the code BEFORE the three fix commits: TLC must refute the named property (spec sensitivity)
-OLD = {'oldDup': 'CountedOnce', 'oldDirect': 'ChangeOnlyIfAuthorised', 'oldQuery': 'NoSideChannel'}
+OLD = {'oldDup': 'CountedOnce', 'oldDirect': 'ChangeOnlyIfAuthorised', 'oldQuery': 'NoSideChannel', 'oldRace': 'OutcomeFromBlockAlone'}
 
 
 def tcfg(name):
@@ -94,8 +94,8 @@ def random_walk(g, rng, max_len=18):
             if a == 'Tx':
                 res = args[4]
                 return 6.0 if res == 'ok' else 2.0 if res in ('rejNonce', 'rejFrom', 'rejRoute', 'noop') else 0.4
-            if a == 'Exec':
-                return 0.2 if dst == cur else 40.0
+            if a in ('Exec', 'ExecQ'):
+                return 0.2 if dst == cur else (40.0 if a == 'Exec' else 8.0)
             return {'CloseBlock': 30.0, 'Query': 0.3, 'Resend': 4.0}.get(a, 1.0)
         k = rng.choices(out, weights=[weight(k) for k in out])[0]
         path.append(k)
@@ -138,6 +138,8 @@ def nontrivial(tr):
             return True
         elif a == 'Exec' and s['args'][1] != 'ok':
             return True
+        elif a == 'ExecQ':
+            return True
         elif a == 'Check':
             signers = [e['s'] for e in s['args'][0] if e['k'] == 'ok']
             if len(signers) != len(set(signers)) or any(e['k'] != 'ok' for e in s['args'][0]):
@@ -160,9 +162,10 @@ def run(ctx, replay=None):
     exhaustive = ['q', 'g2', 't2120'] if quick else ['q', 'q3', 'g2', 't111x', 't1120', 't2120', 't3111', 't1111', 'm2', 'w2']
     graph_cfgs = {'q': 14, 'g2': 14, 't2120': 400} if quick else \
                  {'q': 14, 'q3': 16, 'g2': 14, 't111x': 400, 't1120': 400, 't2120': 400, 't3111': 400, 't1111': 400}
-    max_paths = {'q': 1500, 'g2': 900} if quick else {'q3': 7000}
+    max_paths = {'q': 1100, 'g2': 700} if quick else {'q3': 7000}
+    race_paths = {'g2': 300} if quick else {'q3': 3000}
     walks = {'q': 300, 'g2': 300} if quick else {'q3': 2500, 'g2': 800}
-    old_cfgs = ['oldDup'] if quick else list(OLD)
+    old_cfgs = ['oldRace'] if quick else list(OLD)
     all_traces = []
     for name in exhaustive:
         cfgfile = CFGS[name][0]
@@ -174,7 +177,13 @@ def run(ctx, replay=None):
                                     'about the code)' % (r.violation, name))
         if dump and r.scratch and not r.violation and not r.error:
             g = tlc.parse_dot(os.path.join(r.scratch, 'graph.dot'), drop_vars=DROP)
+            # every block execution with a query parked at the precompile (ExecQ) first, then the general edge cover
+            qpaths, qcov, qwant = tlc.edge_cover_paths(g, ctx.rng, max_len=graph_cfgs[name], only=lambda e: e[1] == 'ExecQ',
+                                                       max_paths=race_paths.get(name)) if not name.startswith('t') else ([], 0, 0)
+            ctx.cov['race_edges_covered'] = ctx.cov.get('race_edges_covered', 0) + len({k for p in qpaths for k in p if g.edges[k][1] == 'ExecQ'})
+            ctx.cov['race_edges_total'] = ctx.cov.get('race_edges_total', 0) + qwant
             paths, cov, want = tlc.edge_cover_paths(g, ctx.rng, max_len=graph_cfgs[name], max_paths=max_paths.get(name))
+            paths = qpaths + paths
             ctx.log('graph %s: %d states %d edges -> %d paths covering %d/%d edges' % (name, len(g.states), len(g.edges), len(paths), cov, want))
             ctx.cov.setdefault('graph_edges_covered', 0)
             ctx.cov['graph_edges_covered'] += cov
